@@ -15,7 +15,8 @@ RULE = ('segments: quadratics and cubics with integer / grid-aligned / float con
         'segment is sampled at 401 parameters plus its own exact critical points; non-trivial = a curved segment with a non-degenerate control polygon')
 NOT_PROVED = ['floating-point placement of the cuts (theorems are over the reals: a cut misplaced by 1 ulp leaves a back-track of O(ulp^2)); measured',
               'cubics whose derivative has a leading coefficient in the band 0 < |a| <= 1e-9 |b| (quadraticRoots then solves the truncated linear equation): '
-              'piece_monotone assumes `genuine`; the retrace/structure theorems do not need it',
+              'monotonicity up to the 0.06% tolerance is now proved WITHOUT the genuineness hypothesis (Proofs/C03band.v: piece_monotone_total, addExtremes_monotone_total); only the EXACT '
+              'variants (exact set of extremes, exactly monotone pieces) still need `genuine`, and are false in the band (cubic_findExtremes_exact_needs_genuine)',
               'whole-path monotonicity when the same segment value occurs twice: refuted (splitAtPoints_duplicate_refuted, addExtremes_duplicate_refuted); known finding D14']
 ASSUMPTIONS = ['Python float = IEEE binary64', 'dict lookup by segment value = numerical equality of all coordinates (no 64-bit hash collision between 1e-9-close tuples, no NaN coordinates)']
 HAND_FINGERPRINTS = [('path/__init__.py', 'BezierPath.splitAtPoints'), ('path/__init__.py', 'BezierPath.addExtremes'),
